@@ -118,7 +118,11 @@ def c13_class(label, view):
             return "c13-wal-altered-entry"
         if parts[3] != "0":
             return "c13-wal-corruption-accepted"
-        return "c13-wal-silent-prefix"
+        # which byte-level damage produced the clean-looking shorter segment matters: truncation and length-field
+        # damage are outside every checksum (known), payload/checksum/magic damage is not
+        lab = label.split(".")
+        what = "trunc" if lab[1] == "trunc" else lab[2]
+        return "c13-wal-silent-prefix:%s" % what
     if view.startswith(("wgone", "wopen")):
         return "c13-wal-missing-accepted"
     if view.startswith(("sbad", "sgone")):
